@@ -63,7 +63,17 @@ const c18Fresh = "«unlisted»"
 
 // c18IterScen is the abstract input of one iteration of the rule loop.
 func c18IterScen(kind, v string, p, q bool) *c18Scen {
-	return &c18Scen{n: 5, closed: true, tags: map[string]string{"area": ""}, inBody: true, v: v, cond: kind, p: p, q: q}
+	s := c18ListScen(kind, v, 1, 0, q)
+	if p {
+		s.rk, s.p = 1, true
+	}
+	return s
+}
+
+// c18ListScen is an iteration on an entry whose value list has ll elements, rk of them smaller than the tag value,
+// and (eq) the next one equal to it.
+func c18ListScen(kind, v string, ll, rk int64, eq bool) *c18Scen {
+	return &c18Scen{n: 5, closed: true, tags: map[string]string{"area": ""}, inBody: true, v: v, cond: kind, p: rk == ll, q: eq, ll: ll, rk: rk}
 }
 
 func c18L2(r *core.R) {
@@ -122,7 +132,7 @@ func c18L2(r *core.R) {
 		case nobs == 0 && undecided != nil:
 			r.Unknown(cn, undecided.pos, "no lookup was reached for a %s entry because the iteration %s", kind, undecided.describe())
 		case nobs == 0:
-			r.OKTrivial(cn, c.fi.Decl.Pos(), "a %s entry is decided without a binary search (%d abstract inputs); the membership test itself is checked by C18.L3", kind, nrun)
+			r.OKTrivial(cn, c.fi.Decl.Pos(), "a %s entry is decided without a lookup of package sort (%d abstract inputs); the membership code itself (linear scan or hand-written binary search) is executed by C18.L3 on witness lists of 0 to 4 ascending elements with the value before, at, between and behind them", kind, nrun)
 		default:
 			r.OK(cn, x.searches[0].pos, "every lookup evaluated for a %s entry (%d evaluations over %d abstract inputs, through any helper) is a binary search of the current entry's %s for the value of Tags.Find(entry.%s)", kind, nobs, nrun, c.valsF.Name(), c.keyF.Name())
 		}
